@@ -15,7 +15,7 @@
      < 17 / < 257, so the simulation applies; composed with ScanProofs.scan_complete
      this gives C04 for the byte-level iterator. *)
 From Slim Require Import Base Keys KeysProofs ListFacts Model TrieInv BuildProofs OrderProofs
-     Scan ScanBasicProofs ScanIterProofs ScanItemsProofs ScanProofs ScanBytes.
+     Scan ScanBasicProofs ScanIterProofs ScanItemsProofs ScanGeProofs ScanProofs ScanBytes.
 From Coq Require Import ZifyN ZifyNat ZifyBool.
 Ltac Zify.zify_post_hook ::= Z.div_mod_to_equations.
 
@@ -772,4 +772,254 @@ Proof.
   destruct (wrap i x) as [cont delivered]. destruct cont; [|exact H].
   destruct (scan_loop fuel T it1 wrap (S i)) as [xs1|e] eqn:Es; [|discriminate]. cbn [bind] in H.
   rewrite (IH it1 bit1 (S i) xs1 Hrel1 Es). exact H.
+Qed.
+
+(* ---------- newIter ---------- *)
+Lemma init_frames_sim : forall path i nb bb stk bstk stk' nb',
+  Forall nib_wf path -> represents nb bb -> Forall2 frame_rel stk bstk -> stk_nib stk ->
+  init_frames path i nb stk = Ok (stk', nb') ->
+  exists bstk' bb',
+    b_init_frames path (4 * i) bb bstk = Ok (bstk', bb') /\
+    Forall2 frame_rel stk' bstk' /\ stk_nib stk' /\ represents nb' bb'.
+Proof.
+  induction path as [|t rest IH]; intros i nb bb stk bstk stk' nb' Hwf R HF Hnib H.
+  - cbn in H. inversion H; subst. exists bstk, bb. csplit; try assumption; reflexivity.
+  - destruct rest as [|c rest'].
+    + cbn in H. inversion H; subst. exists bstk, bb. csplit; try assumption; reflexivity.
+    + inversion Hwf as [|? ? Ht Hrest]; subst.
+      cbn [init_frames] in H.
+      destruct (init_frame t (Some c) i) as [f|e] eqn:Ei; [|discriminate]. cbn [bind] in H.
+      destruct (append_inner_prefix f (node_pfx t) nb) as [nb1|e] eqn:Ep; [|discriminate]. cbn [bind] in H.
+      destruct (append_label f nb1) as [nb2|e] eqn:El; [|discriminate]. cbn [bind] in H.
+      destruct (node_step_sim t (Some c) i nb bb f nb1 nb2 Ht R Ei Ep El)
+        as (bf & bb1 & bb2 & Hbi & Hbp & Hbl & Hrelf & Hnibf & R2).
+      assert (bf_le bf = 4 * f_le f) as Hle by (destruct Hrelf as (_ & _ & _ & _ & _ & Hle & _); exact Hle).
+      destruct (IH (f_le f) nb2 bb2 (f :: stk) (bf :: bstk) stk' nb' Hrest R2
+                   (Forall2_cons _ _ Hrelf HF) (Forall_cons _ Hnibf Hnib) H)
+        as (bstk' & bb' & Hd & HF' & Hnib' & R').
+      exists bstk', bb'. cbn [b_init_frames]. rewrite Hbi. cbn [bind]. rewrite Hbp. cbn [bind]. rewrite Hbl. cbn [bind].
+      rewrite Hle. csplit; assumption.
+Qed.
+
+Lemma new_iter_sim path skip withv it :
+  Forall nib_wf path -> new_iter path skip withv = Ok it ->
+  exists bit, b_new_iter path skip withv = Ok bit /\ iter_rel it bit.
+Proof.
+  intros Hwf H. unfold new_iter in H. unfold b_new_iter.
+  destruct (init_frames path 0 [] []) as [[stk nb]|e] eqn:Ei; [|discriminate]. cbn [bind] in H.
+  destruct (init_frames_sim path 0 [] [] [] [] stk nb Hwf rep_nil (Forall2_nil _) (Forall_nil _) Ei)
+    as (bstk & bb & Hb & HF & Hnib & R).
+  change (4 * 0) with 0 in Hb. rewrite Hb. cbn [bind].
+  destruct skip.
+  - inversion H; subst it. eexists. split; [reflexivity|].
+    unfold iter_rel. cbn [bit_mode bit_withv bit_stack bit_buf it_mode it_withv it_stack it_buf].
+    csplit; try assumption; try reflexivity; [apply next_stack_sim; exact HF|apply next_stack_nib; exact Hnib].
+  - destruct path as [|c [|c2 r]].
+    + inversion H; subst it. eexists. split; [reflexivity|].
+      unfold iter_rel. cbn [bit_mode bit_withv bit_stack bit_buf it_mode it_withv it_stack it_buf].
+      csplit; try assumption; reflexivity.
+    + cbn in Ei. inversion Ei; subst stk nb.
+      inversion H; subst it. eexists. split; [reflexivity|].
+      unfold iter_rel. cbn [bit_mode bit_withv bit_stack bit_buf it_mode it_withv it_stack it_buf].
+      csplit; try assumption; reflexivity.
+    + inversion H; subst it. eexists. split; [reflexivity|].
+      unfold iter_rel. cbn [bit_mode bit_withv bit_stack bit_buf it_mode it_withv it_stack it_buf].
+      csplit; try assumption; reflexivity.
+Qed.
+
+(* ---------- getGEPath returns nodes of the trie ---------- *)
+Lemma leftmost_path_nib : forall t, nib_wf t -> Forall nib_wf (leftmost_path t).
+Proof.
+  induction t as [id ord tail eidx|id big step pfx fc ch IH] using tree_ind'; intros H.
+  - cbn. constructor; [exact H|constructor].
+  - cbn [leftmost_path]. constructor; [exact H|].
+    destruct ch as [|[x c] r]; [constructor|].
+    inversion IH as [|? ? IHc _]; subst. apply IHc.
+    apply nib_wf_inner in H. destruct H as [_ Hk]. inversion Hk as [|? ? [_ Hc] _]; subst. exact Hc.
+Qed.
+
+Definition gs_nib (st : gstate) : Prop :=
+  let '(path, eq, rc) := st in
+  Forall nib_wf path /\
+  (forall c j v, eq = Some (c, j, v) -> nib_wf c) /\
+  (forall r n, rc = Some (r, n) -> nib_wf r).
+
+Lemma ge_down_nib qn l : forall t i path rc,
+  nib_wf t -> Forall nib_wf path -> (forall r n, rc = Some (r, n) -> nib_wf r) ->
+  gs_nib (ge_down qn l t i path rc).
+Proof.
+  induction t as [id ord tail eidx|id big step pfx fc ch IH] using tree_ind'; intros i path rc Hwf Hp Hrc.
+  - cbn [ge_down gs_nib]. csplit; [exact Hp| |exact Hrc]. intros c j v E. inversion E; subst. exact Hwf.
+  - rewrite ge_down_inner. set (t := Inner id big step pfx fc ch) in *.
+    pose proof Hwf as Hwf0. apply nib_wf_inner in Hwf. destruct Hwf as [_ Hk]. clearbody t.
+    destruct (ge_advance qn i pfx) as [i1| |].
+    + cbv zeta. set (path1 := path ++ [t]). set (lb := label_at big qn i1).
+      assert (Forall nib_wf path1) as Hp1 by (apply Forall_app; split; [exact Hp|constructor; [exact Hwf0|constructor]]).
+      induction ch as [|[x c] rest IHc]; [cbn [gs_nib]; csplit; [exact Hp1|discriminate|exact Hrc]|].
+      inversion IH as [|? ? IHt IHrest]; subst. cbn [snd] in IHt.
+      inversion Hk as [|? ? [_ Hc] Hkr]; subst. cbn [snd] in Hc.
+      destruct (x <? lb); [apply IHc; assumption|].
+      destruct (Nat.eqb x lb).
+      * set (rc' := match rest with (_, c') :: _ => Some (c', length path1) | [] => rc end).
+        assert (forall r n, rc' = Some (r, n) -> nib_wf r) as Hrc'.
+        { unfold rc'. destruct rest as [|[y c'] rest']; [exact Hrc|].
+          intros r n E. inversion E; subst. inversion Hkr as [|? ? [_ Hc'] _]; subst. exact Hc'. }
+        destruct (Nat.eqb i1 l).
+        -- cbn [gs_nib]. csplit; [exact Hp1| |exact Hrc']. intros c0 j v E. inversion E; subst. exact Hc.
+        -- apply IHt; assumption.
+      * cbn [gs_nib]. csplit; [exact Hp1|discriminate|]. intros r n E. inversion E; subst. exact Hc.
+    + cbn [gs_nib]. csplit; [exact Hp|discriminate|]. intros r n E. inversion E; subst. exact Hwf0.
+    + cbn [gs_nib]. csplit; [exact Hp|discriminate|exact Hrc].
+Qed.
+
+Lemma ge_path_nib T s path eq :
+  (forall r, t_root T = Some r -> nib_wf r) -> ge_path T s = Ok (path, eq) -> Forall nib_wf path.
+Proof.
+  intros Hr H. unfold ge_path in H. destruct (t_root T) as [r|]; [|inversion H; constructor].
+  destruct (t_innerpfx T && t_leafpfx T); [|discriminate].
+  pose proof (ge_down_nib (nibs s) (length (nibs s)) r 0 [] None (Hr r eq_refl) (Forall_nil _)
+                          (fun r n E => ltac:(discriminate))) as G.
+  destruct (ge_down (nibs s) (length (nibs s)) r 0 [] None) as [[p e] rc].
+  destruct G as (Hp & He & Hrc). inversion H as [Hf]. clear H. unfold ge_finish in Hf.
+  assert (Forall nib_wf (fst (match rc with
+                               | Some (rid, rpl) => (firstn rpl p ++ leftmost_path rid, false)
+                               | None => ([], false)
+                               end))) as Hfb.
+  { destruct rc as [[rid rpl]|]; cbn [fst]; [|constructor].
+    apply Forall_app. split.
+    - rewrite Forall_forall in *. intros x Hx. apply Hp. eapply In_firstn_in. exact Hx.
+    - apply leftmost_path_nib. eapply Hrc. reflexivity. }
+  destruct e as [[[c j] v]|].
+  - assert (Forall nib_wf (p ++ [c])) as Hpc.
+    { apply Forall_app. split; [exact Hp|]. constructor; [eapply He; reflexivity|constructor]. }
+    destruct (if t_leafpfx T then _ else _) in Hf;
+      first [inversion Hf; subst; exact Hpc | rewrite Hf in Hfb; exact Hfb].
+  - rewrite Hf in Hfb. exact Hfb.
+Qed.
+
+Theorem iter_init_sim T s incl withv it :
+  (forall r, t_root T = Some r -> nib_wf r) ->
+  iter_init T s incl withv = Ok it ->
+  exists bit, b_iter_init T s incl withv = Ok bit /\ iter_rel it bit.
+Proof.
+  intros Hr H. unfold iter_init in H. unfold b_iter_init.
+  destruct (ge_path T s) as [[path eq]|e] eqn:Eg; [|discriminate]. cbn [bind] in *.
+  apply new_iter_sim; [|exact H]. eapply ge_path_nib; eassumption.
+Qed.
+
+(* ---------- built tries ---------- *)
+Lemma label_at_ok big ns w : Forall (fun x => x < 16) ns -> lab_ok big (label_at big ns w).
+Proof.
+  intros F. assert (Forall (fun x => x < 16) (skipn w ns)) as F'.
+  { rewrite Forall_forall in *. intros x Hx. apply F. eapply In_skipn_in. exact Hx. }
+  unfold label_at, lab_ok. destruct (skipn w ns) as [|a r]; [destruct big; lia|].
+  inversion F' as [|? ? Ha Fr]; subst. destruct big; [|lia].
+  destruct r as [|b r']; [lia|]. inversion Fr; subst. lia.
+Qed.
+
+Lemma nib_wf_of_trie o : forall t s, trie_of o t s -> SubInv s -> nib_wf t.
+Proof.
+  induction t as [id ord tail eidx|id big step pfx fc ch IH] using tree_ind'; intros s Ht I; [exact Logic.I|].
+  cbn [trie_of] in Ht. destruct Ht as (ib & labels & kids & b' & Hp & Hfst & Hkm).
+  pose proof (inner_facts _ _ _ _ _ _ _ _ _ I Hp) as F.
+  pose proof (children_ok o s big labels kids ch I F Hfst Hkm) as Hch.
+  pose proof (si_ok s I) as Hok. rewrite Forall_forall in Hok.
+  apply nib_wf_inner. split.
+  - pose proof (process_inner_inv _ _ _ _ _ _ _ _ _ Hp) as Hinv. cbv zeta in Hinv.
+    destruct Hinv as ((e0 & e1 & r & Es & Hpfx) & _).
+    destruct (o_inner o && (0 <? sub_w big s - s_from s)); subst pfx; [|exact Logic.I].
+    cbn [pfx_ok]. assert (In e0 (s_ents s)) as He0 by (rewrite Es; left; reflexivity).
+    pose proof (ent_ok_lt16 e0 (Hok e0 He0)) as F0. rewrite Forall_forall in *.
+    intros x Hx. apply F0. eapply In_skipn_in. eapply In_firstn_in. exact Hx.
+  - rewrite Forall_forall in *. intros [x c] Hin. pose proof (Hch _ Hin) as Hc. cbn [fst snd] in Hc.
+    split; cbn [fst snd].
+    + pose proof (co_in _ _ _ _ _ Hc) as Hx. cbn [fst] in Hx.
+      rewrite (if_labels _ _ _ _ _ F) in Hx. apply (proj1 (dedup_adj_In _ _)) in Hx.
+      apply in_map_iff in Hx. destruct Hx as (e & Hl & He). apply filter_In in He. destruct He as [He _].
+      rewrite <- Hl. unfold ent_label. apply label_at_ok. apply ent_ok_lt16. apply Hok. exact He.
+    + apply (IH _ Hin _ (co_trie _ _ _ _ _ Hc) (co_inv _ _ _ _ _ Hc)).
+Qed.
+
+Lemma built_nib o keys vals T :
+  build o keys vals = Ok T -> forall r, t_root T = Some r -> nib_wf r.
+Proof.
+  intros Hb r Hr. destruct (build_ok _ _ _ _ Hb) as [[_ ->]|(r' & lidx & Bt)]; [discriminate|].
+  rewrite (bt_root _ _ _ _ _ _ Bt) in Hr. inversion Hr; subst r'.
+  apply (nib_wf_of_trie o r _ (bt_trie _ _ _ _ _ _ Bt)).
+  apply root_inv; [exact (bt_sorted _ _ _ _ _ _ Bt)|exact (bt_nonempty _ _ _ _ _ _ Bt)].
+Qed.
+
+(* ---------- the byte-level iterator refines Scan's iterator on every built trie ---------- *)
+Theorem scan_bytes_refine o keys vals T :
+  build o keys vals = Ok T ->
+  forall s incl withv it,
+    iter_init T s incl withv = Ok it ->
+    exists bit,
+      b_iter_init T s incl withv = Ok bit /\
+      (forall n rs, iter_run n T it = Ok rs -> b_iter_run n T bit = Ok rs) /\
+      (forall fn xs, scan_from T s incl withv fn = Ok xs -> b_scan_from T s incl withv fn = Ok xs) /\
+      (forall e incle fn xs, scan_from_to T s incl e incle withv fn = Ok xs ->
+                             b_scan_from_to T s incl e incle withv fn = Ok xs).
+Proof.
+  intros Hb s incl withv it Hi.
+  destruct (iter_init_sim T s incl withv it (built_nib o keys vals T Hb) Hi) as (bit & Hbi & Hrel).
+  exists bit. split; [exact Hbi|]. split; [|split].
+  - intros n rs. apply iter_run_sim. exact Hrel.
+  - intros fn xs H. unfold scan_from in H. unfold b_scan_from. rewrite Hi in H. rewrite Hbi. cbn [bind] in *.
+    eapply scan_loop_sim; eassumption.
+  - intros e incle fn xs H. unfold scan_from_to in H. unfold b_scan_from_to. rewrite Hi in H. rewrite Hbi. cbn [bind] in *.
+    eapply scan_loop_sim; eassumption.
+Qed.
+
+(* ---------- C04 for the byte-level iterator ---------- *)
+Theorem scan_bytes_complete o keys vals T :
+  build o keys vals = Ok T -> complete_opts o = true ->
+  forall s incl withv, exists bit outs,
+    b_iter_init T s incl withv = Ok bit /\
+    Forall2 (elem_ok keys vals withv) (scan_indexes o keys vals s incl) outs /\
+    (forall n, b_iter_run n T bit = Ok (firstn n (map Some outs ++ repeat None n))) /\
+    (forall fn, b_scan_from T s incl withv fn = Ok (cut fn 0 outs)) /\
+    (forall e incle fn, b_scan_from_to T s incl e incle withv fn = Ok (cut_to e incle fn 0 outs)).
+Proof.
+  intros Hb Hc s incl withv.
+  destruct (scan_complete o keys vals T Hb Hc s incl withv) as (it & outs & Hi & He & Hrun & Hsf & Hsft).
+  destruct (scan_bytes_refine o keys vals T Hb s incl withv it Hi) as (bit & Hbi & Brun & Bsf & Bsft).
+  exists bit, outs. split; [exact Hbi|]. split; [exact He|]. split; [|split].
+  - intros n. apply Brun. apply Hrun.
+  - intros fn. apply Bsf. apply Hsf.
+  - intros e incle fn. apply Bsft. apply Hsft.
+Qed.
+
+(* ---------- the re-included half byte ----------
+   A stored inner prefix starts at the byte boundary at or below the position
+   where the node starts, a leaf tail at the byte boundary at or below the end of
+   the last label: when that position is an odd nibble, the first stored byte
+   repeats, in its high half, the nibble the buffer already holds there.  The
+   code cuts the buffer at that byte boundary and appends; on a built trie the
+   buffer below the cursor is unchanged by this (so nothing is lost), because
+   the buffer agrees with every key of the node's subset on the first [from]
+   nibbles and the stored bytes are bytes of such a key. *)
+Theorem prefix_overlap o isbig s big step pfx labels kids b' buf :
+  o_inner o = true -> SubInv s ->
+  process_subset o isbig s = Ok (DInner big step pfx labels kids, b') ->
+  agree s (s_from s) buf ->
+  firstn (s_from s) (b1_of pfx (s_from s) buf) = firstn (s_from s) buf.
+Proof.
+  intros Hi I Hp Hag.
+  destruct (inner_pfx_facts o isbig s big step pfx labels kids b' buf Hi I Hp Hag) as [_ Hb1].
+  pose proof (inner_facts _ _ _ _ _ _ _ _ _ I Hp) as F.
+  pose proof (if_two _ _ _ _ _ F) as Htwo. pose proof (if_w _ _ _ _ _ F) as Hw.
+  destruct (s_ents s) as [|e0 r0] eqn:Es; [cbn in Htwo; lia|].
+  rewrite (Hb1 e0 (or_introl eq_refl)). destruct Hag as [_ Hag]. rewrite <- (Hag e0); [|rewrite Es; left; reflexivity].
+  rewrite firstn_firstn. f_equal. lia.
+Qed.
+
+Theorem leaf_overlap o e from buf :
+  o_leaf o = true -> ent_ok e -> firstn from (e_nibs e) = firstn from buf ->
+  firstn (even_down from) buf ++ tail_nibs (leaf_tail o e from) = e_nibs e /\
+  firstn from (firstn (even_down from) buf ++ tail_nibs (leaf_tail o e from)) = firstn from buf.
+Proof.
+  intros Hl Hok Hag. rewrite (leaf_tail_nibs o e from Hl Hok).
+  pose proof (even_down_le from) as Hed.
+  rewrite <- (firstn_le_agree _ _ _ _ Hed Hag), firstn_skipn. split; [reflexivity|exact Hag].
 Qed.
